@@ -201,3 +201,23 @@ PROPS['C08'] = dict(
     level_text="Lean 4 theorems on the universe U: C08_agrees_with_rank (CompareValues true exactly when RankValues Equal), C08_structural (true exactly when the canonical images coincide: rebuilt copies equal, any single changed part unequal), C08_refl / C08_symm / C08_trans, C08_deep_panics (a value nested deeper than the limit ends in the depth-limit panic, never a hang, for every maximum), C08_collator_reusable (calls leave the collator as found, also after a panic). Negative: C08_counterexample_complex (recorded finding). Tied to /repo by the differential run incl. self-containing collections (cycle length 1..3, alone or among siblings) and call sequences on one collator.",
     level_note="PARTIAL as C07 (Go maps by correspondence only, complex recorded). Process-level crashes (stack exhaustion) are outside the model; the run executes the cyclic cases for real.",
 )
+
+def cdcn_key(l):
+    p = l.get('parse', {})
+    toks = [t.get('tt') for t in l.get('toks', [])]
+    return (l.get('gen'), p.get('out'), p.get('pc'), p.get('tt'), min(len(toks), 12), tuple(sorted(set(toks)))[:8])
+
+PROPS['C12'] = dict(
+    id='C12', modules=['CollectionModel.Props.C12'], key=cdcn_key, nontrivial=lambda l: len(l.get('src', [])) > 0,
+    timeout=dict(quick=900, thorough=3000),
+    rule="cases = one ParseSource call on one source string, observed as: the real scanner's token stream (kind, length, line, "
+         "column per token), strconv's verdict on every literal token, the outcome (value / located diagnostic with token kind, "
+         "line, column / Go runtime error / other panic / hang by watchdog) and whether a scanner goroutine is still alive "
+         "afterwards: 13 valid documents with every prefix, every single-character deletion, substitution and insertion, an "
+         "illegal character injected at every token boundary of the multi-line documents (reported line/column checked), random "
+         "sequences of valid and invalid fragments (tokens in invalid orders), item kinds against every context, long tails "
+         "after the error point, random byte strings; non-trivial = non-empty source",
+    exhaustive_subspaces="every prefix and every single-character deletion of the 13 documents; thorough: also every substitution/insertion by 4 characters at every position",
+    level_text="Lean 4 theorems for EVERY source string: C12_scan_shape (the token stream ends with exactly one EOF, no EOF before it, an error token only right before it – so the parser can never read past the end), C12_token_positions (each token carries the line and column obtained by advancing over exactly the runes before it: the diagnostics' positions), C12_token_line_in_range (the diagnostic formatter's source-line lookup cannot go out of range). The parser model (every parse* method with the push-back stack of capacity 4, the named-return-token convention, literal conversion errors as diagnostics, checked context assertion) is executable and agrees with the real parser on every generated input incl. the exact diagnostic token kind, line and column; its totality theorem is stated in full (C12_parse_total_statement) but NOT yet proved.",
+    level_note="PARTIAL: parser totality (no runtime error, no stack-capacity panic, no hang for every token stream) rests on the correspondence run, not on a Lean proof. Stack exhaustion at extreme nesting, regexp running time and the goroutine scheduler are outside the model (the run checks for a leaked scanner goroutine and hangs with a watchdog). strconv and regexp are external; the recognisers are hand-written and compared with the real scanner on every line.",
+)
